@@ -118,6 +118,10 @@ type Unit struct {
 	wantSafety bool
 	lockProps []string
 	mods []modEntry
+	compVolatileType map[string]bool
+	verBound map[string]string
+	nextOverride string
+	selfRef string // identity of the function value when a closure is verified standalone
 	modsDone bool
 	oblNames map[string]int
 	exitState *State
@@ -226,11 +230,18 @@ func (un *Unit) get(st *State, comp string) string {
 	return n
 }
 
-func (un *Unit) set(st *State, comp, v string) { st.heap[comp] = v }
+func (un *Unit) set(st *State, comp, v string) {
+	st.heap[comp] = v
+	if comp != nextComp && un.compKind[comp] != "local" {
+		if _, ok := un.verBound[v]; !ok {
+			un.verBound[v] = un.next(st)
+		}
+	}
+}
 
 func (un *Unit) havocComp(st *State, comp string) string {
 	v := un.u.freshConst(comp+"@h", un.compSort[comp])
-	st.heap[comp] = v
+	un.set(st, comp, v)
 	return v
 }
 
@@ -239,6 +250,9 @@ func (un *Unit) fieldComp(structT types.Type, i int) (comp string, ftyp types.Ty
 	f := st.Field(i)
 	name := "H_" + sanitize(typeKey(structT)) + "." + f.Name()
 	un.comp(name, arraySort("Int", un.u.sortOf(f.Type())), "field:"+typeKey(structT)+"."+f.Name())
+	if nm, ok := specialIntType(f.Type()); ok && (strings.HasPrefix(nm, "sync/atomic.") || nm == "sync.Once") {
+		un.compVolatileType[name] = true
+	}
 	return name, f.Type()
 }
 
@@ -247,6 +261,34 @@ func (un *Unit) elemComp(elem types.Type) string {
 	name := "E_" + sanitize(s)
 	un.comp(name, arraySort("Int", arraySort("Int", s)), "elem")
 	return name
+}
+
+// isVolatile: state that other goroutines may change at any time (atomics, sync.Once, fields declared volatile).
+func (un *Unit) isVolatile(comp string) bool {
+	if strings.HasPrefix(comp, "C_sync.atomic.") || comp == "C_sync.Once" {
+		return true
+	}
+	kind := un.compKind[comp]
+	if strings.HasPrefix(kind, "field:") {
+		if un.specs.Volatile[strings.TrimPrefix(kind, "field:")] {
+			return true
+		}
+		if vt, ok := un.compVolatileType[comp]; ok {
+			return vt
+		}
+	}
+	return false
+}
+
+// havocVolatile: an effectful callee (or another goroutine meanwhile) may have changed volatile state.
+func (un *Unit) havocVolatile(st *State) {
+	for c := range un.compSort {
+		if un.isVolatile(c) {
+			if _, touched := st.heap[c]; touched || un.u.declared[un.versionName(c, st.base)] {
+				un.havocComp(st, c)
+			}
+		}
+	}
 }
 
 func (un *Unit) cellComp(elem types.Type) string {
@@ -271,8 +313,24 @@ func (un *Unit) mapComps(m *types.Map) (dom, val, ln string) {
 const nextComp = "$next"
 
 func (un *Unit) next(st *State) string {
+	if un.nextOverride != "" {
+		return un.nextOverride
+	}
 	un.comp(nextComp, "Int", "next")
 	return un.get(st, nextComp)
+}
+
+// boundOf: every reference stored in the current version of comp was allocated before this frontier
+// (the frontier at the time that version came into being).
+func (un *Unit) boundOf(st *State, comp string) string {
+	v := un.get(st, comp)
+	if b, ok := un.verBound[v]; ok {
+		return b
+	}
+	if v == un.versionName(comp, st.base) {
+		return un.get(&State{heap: map[string]string{}, base: st.base}, un.comp(nextComp, "Int", "next"))
+	}
+	return un.next(st)
 }
 
 // allocRef returns a fresh reference, distinct from everything allocated so far.
